@@ -24,31 +24,31 @@ const c16BuiltReason = "value stored by this package's own constructor for the m
 const c16OwnImplReason = "the flow/node/localization objects held by definition.flow are the package's own implementations (built by ReadFlow/NewFlow's readers); not decoded JSON"
 
 var c16AssertAllowed = map[string]string{
-	"(*flows/definition/legacy/expressions.legacyVisitor).VisitFunctionCall/([]string)#1":                   c16VisitorReason,
-	"(*flows/definition/legacy/expressions.legacyVisitor).VisitAdditionOrSubtractionExpression/(string)#1": c16VisitorReason,
-	"(*flows/definition/legacy/expressions.legacyVisitor).VisitAdditionOrSubtractionExpression/(string)#2": c16VisitorReason,
-	"(*flows/definition/legacy/expressions.legacyVisitor).VisitFunctionParameters/(string)#1":             c16VisitorReason,
-	"flows/definition/legacy/expressions.migrateExpression/(string)#1":                                     c16VisitorReason,
-	"(flows/definition/legacy.migratedExit).UUID/(github.com/nyaruka/gocommon/uuids.UUID)#1":               c16BuiltReason,
-	"(flows/definition/legacy.migratedNode).UUID/(github.com/nyaruka/gocommon/uuids.UUID)#1":               c16BuiltReason,
-	"(flows/definition/legacy.migratedCategory).UUID/(github.com/nyaruka/gocommon/uuids.UUID)#1":           c16BuiltReason,
-	"(flows/definition/legacy.migratedCase).UUID/(github.com/nyaruka/gocommon/uuids.UUID)#1":               c16BuiltReason,
-	"(flows/definition/legacy.migratedAction).UUID/(github.com/nyaruka/gocommon/uuids.UUID)#1":             c16BuiltReason,
+	"(*flows/definition/legacy/expressions.legacyVisitor).VisitFunctionCall/([]string)#1":                     c16VisitorReason,
+	"(*flows/definition/legacy/expressions.legacyVisitor).VisitAdditionOrSubtractionExpression/(string)#1":    c16VisitorReason,
+	"(*flows/definition/legacy/expressions.legacyVisitor).VisitAdditionOrSubtractionExpression/(string)#2":    c16VisitorReason,
+	"(*flows/definition/legacy/expressions.legacyVisitor).VisitFunctionParameters/(string)#1":                 c16VisitorReason,
+	"flows/definition/legacy/expressions.migrateExpression/(string)#1":                                        c16VisitorReason,
+	"(flows/definition/legacy.migratedExit).UUID/(github.com/nyaruka/gocommon/uuids.UUID)#1":                  c16BuiltReason,
+	"(flows/definition/legacy.migratedNode).UUID/(github.com/nyaruka/gocommon/uuids.UUID)#1":                  c16BuiltReason,
+	"(flows/definition/legacy.migratedCategory).UUID/(github.com/nyaruka/gocommon/uuids.UUID)#1":              c16BuiltReason,
+	"(flows/definition/legacy.migratedCase).UUID/(github.com/nyaruka/gocommon/uuids.UUID)#1":                  c16BuiltReason,
+	"(flows/definition/legacy.migratedAction).UUID/(github.com/nyaruka/gocommon/uuids.UUID)#1":                c16BuiltReason,
 	"(flows/definition/legacy.NodeUIConfig).AddCaseConfig/(map[github.com/nyaruka/gocommon/uuids.UUID]any)#1": "the \"cases\" entry is only ever stored by this method itself (a map[uuids.UUID]any) on a config created by make(NodeUIConfig)",
-	"(*flows/definition.node).MarshalJSON/(*flows/definition.exit)#1":                                        c16OwnImplReason,
-	"(*flows/definition.flow).ChangeLanguage/(flows/definition.localization)#1":                              c16OwnImplReason,
-	"(*flows/definition.flow).copy/(*flows/definition.flow)#1":                                               c16OwnImplReason,
-	"(*flows/definition.flow).MarshalJSON/(flows/definition.localization)#1":                                 c16OwnImplReason,
-	"(*flows/definition.flow).MarshalJSON/(*flows/definition.node)#2":                                        c16OwnImplReason,
+	"(*flows/definition.node).MarshalJSON/(*flows/definition.exit)#1":                                         c16OwnImplReason,
+	"(*flows/definition.flow).ChangeLanguage/(flows/definition.localization)#1":                               c16OwnImplReason,
+	"(*flows/definition.flow).copy/(*flows/definition.flow)#1":                                                c16OwnImplReason,
+	"(*flows/definition.flow).MarshalJSON/(flows/definition.localization)#1":                                  c16OwnImplReason,
+	"(*flows/definition.flow).MarshalJSON/(*flows/definition.node)#2":                                         c16OwnImplReason,
 }
 var c16SliceAllowed = map[string]string{
 	"flows/definition/legacy/expressions.fixLookups/[1:]":           "argument is a match of numericLookupRegex `\\.\\d+\\w*`, at least two bytes",
 	"flows/definition/legacy/expressions.MigrateStringLiteral/[1:]": "only called from VisitStringLiteral with the text of a STRING token, which starts and ends with a double quote",
-	"(*flows/definition/legacy.Translations).UnmarshalJSON/[0]":      "encoding/json never calls UnmarshalJSON with empty input",
-	"(*flows/definition/legacy.StringOrNumber).UnmarshalJSON/[0]":    "encoding/json never calls UnmarshalJSON with empty input",
-	"(*flows/definition/legacy.StringOrNumber).UnmarshalJSON/[1:]":   "under data[0]=='\"': encoding/json passes a complete string token, at least two bytes",
-	"(*flows/definition/legacy.LabelReference).UnmarshalJSON/[0]":    "encoding/json never calls UnmarshalJSON with empty input",
-	"(*flows/definition/legacy.GroupReference).UnmarshalJSON/[0]":    "encoding/json never calls UnmarshalJSON with empty input",
+	"(*flows/definition/legacy.Translations).UnmarshalJSON/[0]":     "encoding/json never calls UnmarshalJSON with empty input",
+	"(*flows/definition/legacy.StringOrNumber).UnmarshalJSON/[0]":   "encoding/json never calls UnmarshalJSON with empty input",
+	"(*flows/definition/legacy.StringOrNumber).UnmarshalJSON/[1:]":  "under data[0]=='\"': encoding/json passes a complete string token, at least two bytes",
+	"(*flows/definition/legacy.LabelReference).UnmarshalJSON/[0]":   "encoding/json never calls UnmarshalJSON with empty input",
+	"(*flows/definition/legacy.GroupReference).UnmarshalJSON/[0]":   "encoding/json never calls UnmarshalJSON with empty input",
 }
 var c16PanicAllowed = map[string]string{
 	"flows/definition/migrations.GetTemplateCatalog": "called by the per-version migration functions with their own constant version; specdata/templates.json carries a catalog for each (TestCurrentTemplateCatalog pins it)",
@@ -126,9 +126,9 @@ func c16R1(p *core.Program, r *core.Report) {
 		return
 	}
 	type reg struct {
-		ver  string
-		fn   string
-		pos  token.Pos
+		ver string
+		fn  string
+		pos token.Pos
 	}
 	var regs []reg
 	for _, f := range mpk.Syntax {
@@ -450,7 +450,6 @@ func nilGuarded(b *ssa.BasicBlock, v ssa.Value) bool {
 	}
 	return false
 }
-
 
 // defaultedByProducer: the dereferencing function is a method whose every call site takes its receiver from one
 // function (the reader) that stores a fresh object into the field on the `field == nil` edge.
@@ -995,4 +994,3 @@ func c16R10(p *core.Program, r *core.Report) {
 	}
 	r.Require("legacy_action_constructors", nCtor, 18)
 }
-
